@@ -269,6 +269,17 @@ TakenOK(D, P, Q, v, ch) ==
      THEN D.vecs[v].kind # "switch" => Q.val[v][e] = Last(ch, name)
      ELSE D.vecs[v].kind # "switch" => Q.val[v][e] = P.val[v][e]
 
+\* C06 / C09 for ONE switch written or assigned in a vector that satisfied its rule: "switches On/Off, subject only to the property's
+\* switch rule" - On stays On and (exclusive rules) turns the others Off; Off is Off unless it is the only On of a OneOfMany vector;
+\* nothing else changes
+SwitchOneOK(D, P, Q, v, e, x) ==
+  (D.vecs[v].kind = "switch" /\ x \in {On, Off} /\ RuleHolds(D, v, OnCount(P, v))) =>
+     LET othersOn == {j \in DOMAIN P.val[v] : j # e /\ P.val[v][j] = On}
+         excl == D.vecs[v].rule \in {"OneOfMany", "AtMostOne"}
+         want == IF x = On THEN On ELSE IF D.vecs[v].rule = "OneOfMany" /\ othersOn = {} THEN On ELSE Off
+     IN /\ Q.val[v][e] = want
+        /\ \A j \in DOMAIN Q.val[v] : j # e => Q.val[v][j] = (IF x = On /\ excl THEN Off ELSE P.val[v][j])
+
 (* C07: the reply to getProperties *)
 DefsOf(Q) == SelectSeq(Q.pub, LAMBDA m : m.t = "def")
 ReplyExact(D, P, Q, target, name) ==
